@@ -287,3 +287,78 @@ def reg_rmw(f):
 
 
 VARS = {'atomic': atomic_vars, 'chan': chan_vars, 'oneshot': oneshot_vars, 'mutex': mutex_vars, 'notify': notify_vars, 'reg': reg_vars}
+
+
+# ---------------------------------------------------------------------------------------------- DashMap over a small key domain
+def dashmap_init(nkeys, present=None, vals=None):
+    st = {}
+    for k in range(nkeys):
+        st['p%d' % k] = z3.BoolVal(bool(present and present.get(k)))
+        st['v%d' % k] = bv((vals or {}).get(k, 0), 8)
+        st['l%d' % k] = bv(0, 4)     # 0 free, t+1 = entry guard held by thread t
+    return st
+
+
+def dashmap_vars(prefix, nkeys):
+    st = {}
+    for k in range(nkeys):
+        st['p%d' % k] = z3.Bool('%s.p%d' % (prefix, k))
+        st['v%d' % k] = z3.BitVec('%s.v%d' % (prefix, k), 8)
+        st['l%d' % k] = z3.BitVec('%s.l%d' % (prefix, k), 4)
+    return st
+
+
+def dashmap_entry(tid, k):
+    """DashMap::entry(k): takes the key's (shard) write lock until the Entry is consumed or dropped"""
+    def op(state, args=None):
+        ns = dict(state)
+        ns['l%d' % k] = bv(tid + 1, 4)
+        return state['l%d' % k] == 0, ns, {'present': state['p%d' % k], 'val': state['v%d' % k]}
+    return op
+
+
+def dashmap_insert_release(tid, k, val):
+    """VacantEntry::insert / OccupiedEntry::insert: write and release"""
+    def op(state, args=None):
+        ns = dict(state)
+        ns['p%d' % k] = z3.BoolVal(True)
+        ns['v%d' % k] = bv(val, 8)
+        ns['l%d' % k] = bv(0, 4)
+        return z3.BoolVal(True), ns, {'held': state['l%d' % k] == tid + 1}
+    return op
+
+
+def dashmap_release(tid, k):
+    def op(state, args=None):
+        ns = dict(state)
+        ns['l%d' % k] = z3.If(state['l%d' % k] == tid + 1, bv(0, 4), state['l%d' % k])
+        return z3.BoolVal(True), ns, {}
+    return op
+
+
+def dashmap_remove(k):
+    """DashMap::remove(k): blocks while an entry guard is held on the key"""
+    def op(state, args=None):
+        ns = dict(state)
+        ns['p%d' % k] = z3.BoolVal(False)
+        return state['l%d' % k] == 0, ns, {'present': state['p%d' % k], 'val': state['v%d' % k]}
+    return op
+
+
+def dashmap_insert(k, val):
+    """DashMap::insert(k, v): unconditional overwrite"""
+    def op(state, args=None):
+        ns = dict(state)
+        ns['p%d' % k] = z3.BoolVal(True)
+        ns['v%d' % k] = bv(val, 8)
+        return state['l%d' % k] == 0, ns, {'present': state['p%d' % k], 'val': state['v%d' % k]}
+    return op
+
+
+def dashmap_get(k):
+    def op(state, args=None):
+        return state['l%d' % k] == 0, dict(state), {'present': state['p%d' % k], 'val': state['v%d' % k]}
+    return op
+
+
+VARS['dashmap'] = dashmap_vars
